@@ -26,6 +26,46 @@ CLAIMED = {
              "correspondence run; Python str.split oracle.",
         tech="machine-checked proof in Lean 4 (induction on List Char with byte-offset lemmas) + exhaustive "
              "model-vs-implementation correspondence run"),
+
+    "C03": dict(
+        text="Lean 4 model of NodeIter (odometer over the ordinary key lookup) and of traverse_by_key/Transcode; theorems so far: "
+             "leaf count of the enumeration = Metadata.count, unreachable TooLong arm; the flagship enumeration theorem "
+             "(nodes = leaves in order) is in progress. Every run compares the complete item sequence of nodes::<N,D>() for "
+             "7 target representations (plain and exact-size) on every corpus type with the model and with a brute-force "
+             "enumeration of the generated schema.",
+        note="PARTIAL proof: enumeration theorem not yet machine-checked; the iteration order/completeness claim currently "
+             "rests on the correspondence + oracle run over the corpus (~55 types). Trusted: Lean kernel, typegen.py/spec.py, rt.rs.",
+        tech="Lean 4 model + (partial) theorems; model-vs-implementation correspondence and schema-enumeration oracle"),
+    "C04": dict(
+        text="Lean 4 theorems: Chain of two key lists = their concatenation for every schema/callback (via a general "
+             "bisimulation theorem: step-wise agreeing key sources are interchangeable on every schema); per-representation "
+             "left-inverse theorems in progress. Every run transcodes every node of every corpus type between 9 source and "
+             "10 target representations, checks the recording callback and Chain at every split point.",
+        note="PARTIAL proof: render/read left-inverse per representation not yet machine-checked. Trusted: Lean kernel, "
+             "hand-written model tied by the correspondence run, typegen.py/spec.py.",
+        tech="Lean 4 proof (bisimulation over schema induction) + exhaustive-over-corpus correspondence and oracle"),
+    "C06": dict(
+        text="Lean 4 theorems for every schema: Metadata.count = number of leaves; max_depth exceeded by no leaf and attained by "
+             "one (mutual structural induction over the nested schema). max_length/max_bits exactness in progress. Every run "
+             "compares Metadata and a recording Walk with brute force on every corpus type (array lengths straddling powers "
+             "of 2 and 10) and transcodes every node into buffers sized from the metadata.",
+        note="PARTIAL proof: max_length / max_bits exactness and the buffer-sufficiency corollary are currently only checked "
+             "by the correspondence + oracle run. Assumes count < 2^64.",
+        tech="Lean 4 proof by structural induction + correspondence/oracle run"),
+    "C09": dict(
+        text="Lean 4 theorem (on the definitions regenerated from packed.rs): one level of Transcode-for-Packed followed by "
+             "Keys-for-Packed returns the index and the previous key; path-level dec_enc/order theorems in progress on top of "
+             "C08's sequence theorem. Every run checks value, decode, uniqueness, order and width of the packed key of every "
+             "node of every corpus type.",
+        note="PARTIAL proof (single level). bv_decide axioms as in C08. max_bits ≤ 63.",
+        tech="Lean 4 proof (bv_decide + C08 lemmas) + correspondence/oracle run"),
+    "C11": dict(
+        text="Lean 4 model of NodeIter::{default, root, next} incl. the capacity arm; theorems so far: fused (exhausted state "
+             "stays exhausted for any fuel), fresh iterator not exhausted, TooLong arm unreachable; enumeration theorem in "
+             "progress. Every run iterates every corpus type for every depth limit, every (sampled) node as root in several "
+             "key representations, index/path capacities from 0 to sufficient, polling past the end.",
+        note="PARTIAL proof: exactness of rooted/limited enumeration rests on the correspondence + oracle run.",
+        tech="Lean 4 model + (partial) theorems; correspondence and brute-force oracle"),
 }
 
 PENDING = "not yet built in this framework (work in progress; see DESIGN.md §10 order of work)"
@@ -53,6 +93,7 @@ m = {
         "enable": "--cfg quartiq_miniconf_verif via /verif/harness/.cargo/config.toml [build] rustflags",
         "baseline_off_cmd": "cd /repo && cargo test --workspace --no-fail-fast --offline",
         "source_commits": [],
+        "fix_commits": ["5c38288", "bc86863", "df164b5"],
         "add_only": True,
     },
     "engines": [{
